@@ -997,8 +997,8 @@ package rueidis
 //@ func pipe._backgroundRead #c27
 //@   option opaque-pkgs=github.com/redis/rueidis/internal/cmds
 //@   modifies *
-//@   loop 1: invariant [C27 every-embedded-push-is-dispatched-and-every-other-element-kept] rangeindex >= -1 && i >= 0 && calls(handlePush, 2) + i == atentry(calls(handlePush, 2)) + rangeindex + 1
-//@   assert [C27 an-embedded-push-is-dispatched-with-its-own-content] at handlePush#2: v.typ == '>' && arg1 == v.values()
+//@   loop 1: invariant [C27 C06 every-embedded-push-is-dispatched-and-every-other-element-kept] rangeindex >= -1 && i >= 0 && calls(handlePush, 2) + i == atentry(calls(handlePush, 2)) + rangeindex + 1
+//@   assert [C27 C06 an-embedded-push-is-dispatched-with-its-own-content] at handlePush#2: v.typ == '>' && arg1 == v.values()
 // subscriber ids come from a counter that only grows (an id is never handed out twice while its holder may still be registered)
 //@ func subs.Subscribe #c26
 //@   modifies *
@@ -1007,6 +1007,12 @@ package rueidis
 //@   modifies *
 //@   ensures [C26 only-subscribing-moves-the-id-counter] calls(AddUint64) == 0
 // a lost connection takes the dedicated hook registration out of the pipe before closing its channel (so it is closed once)
+// whatever ended the connection, its cache is closed before the pending calls are failed: a dead connection serves no hits
+//@ immutable [C06] pipe cache writers=_newPipe
+//@ func pipe._background #c06
+//@   modifies *
+//@   assert [C06 a-lost-connection-closes-its-cache-whatever-the-reason] at NewErrorResult: p.cache == nil || calls(Close, 4) == 1
+//@   assert [C06 the-cache-is-closed-with-the-abort-error] at Close#4: arg1 == ErrDoCacheAborted
 //@ func pipe._background #c26
 //@   modifies *
 //@   assert [C26 the-hook-registration-is-swapped-out-for-the-empty-one] at Swap: arg1 == emptypshks
